@@ -3,6 +3,28 @@
 // so a literal rendered for one of these types compiles there under the same import path.
 package c10types
 
+import (
+	"image"
+	"net/url"
+	"time"
+)
+
+// types with fields of named types of OTHER packages: a zero-valued field of such a type is omitted from the
+// literal, and then its package must not be imported (RenderStack / fixes/C10-6)
+type (
+	Box struct {
+		P  image.Point
+		D  time.Duration
+		In Inner
+		N  int
+	}
+	Wrap struct {
+		B Box
+		U url.Values
+		Q *image.Point
+	}
+)
+
 type (
 	Color int
 	Level int8
